@@ -263,5 +263,55 @@ FACETS.append(Facet('np/build-histories', f_history, strategy=lambda t: st_histo
 FACETS.append(Facet('torch/build-histories', f_history, strategy=lambda t: st_history('torch', 3, ['rot', 'rotc', 'fmap', 'bmap'], ('CliffordCircuit',)), examples={'quick': 200, 'thorough': 8000},
                     shards={'quick': 1, 'thorough': 4}, backend='torch'))
 
+
+def f_compose_history(case):
+    """several circuits built side by side; steps append gates to one of them or compose one into another (also into an empty accumulator).
+    At the end *every* circuit - receivers and operands - must act as the ordered list of the gates that were put into it."""
+    be, N = case['be'], case['N']
+    Bk = B.backend(be)
+    cm = Bk.mods()['c']
+    k = case['k']
+    circs = [cm.identity_circuit(N) for _ in range(k)]
+    progs = [[] for _ in range(k)]
+    gates = [[] for _ in range(k)]
+    ncompose = 0
+    for stp in case['steps']:
+        a = stp['a'] % k
+        if stp['t'] == 'take':
+            g = C.gate_lib(stp['gate'], be)
+            circs[a].take(g)
+            progs[a].append(stp['gate']); gates[a].append(g)
+        else:
+            b = stp['b'] % k
+            if a == b:
+                continue
+            circs[a].compose(circs[b])
+            progs[a] = progs[a] + progs[b]; gates[a] = gates[a] + gates[b]
+            ncompose += 1
+    L, K = ref.parse_list(case['ops'])
+    for i in range(k):
+        if case['compile'] and progs[i]:
+            circs[i].compile()
+        obj = Bk.plist(L, K)
+        circs[i].forward(obj)
+        total = C.program_ref(progs[i], N, gates[i])
+        C.expect_list(Bk.read_list(obj), total.apply(L, K), 'circuit #%d of %d after the history %s: forward vs its own %d gates' % (
+            i, k, [(x['t'], x['a'] % k, x.get('b', 0) % k) for x in case['steps']], len(progs[i])), 'compose-history')
+    return {'nt': ncompose >= 1 and sum(len(p) for p in progs) >= 3, 'labels': ['N=%d' % N, 'composes=%d' % min(ncompose, 4), 'compiled' if case['compile'] else 'plain']}
+
+
+def st_compose_history(be, hiN, kinds=None):
+    def inner(N):
+        step = st.integers(0, 4).flatmap(lambda i: st.fixed_dictionaries({'t': st.just('take'), 'a': st.integers(0, 2), 'gate': gen.st_gate(N, kinds)}) if i < 3 else
+                                         st.fixed_dictionaries({'t': st.just('compose'), 'a': st.integers(0, 2), 'b': st.integers(0, 2)}))
+        return st.fixed_dictionaries({'be': st.just(be), 'N': st.just(N), 'k': st.sampled_from([2, 3]), 'steps': st.lists(step, min_size=2, max_size=12),
+                                      'ops': st.lists(gen.st_pauli(N), min_size=1, max_size=4), 'compile': st.booleans()})
+    return st.sampled_from([n for n in (1, 2, 3, 3, 4) if n <= hiN]).flatmap(inner)
+
+
+FACETS.append(Facet('np/compose-histories', f_compose_history, strategy=lambda t: st_compose_history('np', 4), examples={'quick': 1200, 'thorough': 50000}, shards={'quick': 2, 'thorough': 8}))
+FACETS.append(Facet('torch/compose-histories', f_compose_history, strategy=lambda t: st_compose_history('torch', 3, ['rot', 'rotc', 'fmap', 'bmap']), examples={'quick': 150, 'thorough': 6000},
+                    shards={'quick': 1, 'thorough': 4}, backend='torch'))
+
 from harness.fuzzfacet import make_fuzz_facet
 FACETS.append(make_fuzz_facet('np/atheris-circuit', 'c09', {'circuit': f_circuit}, {'quick': 3000, 'thorough': 120000}, max_len=256))
